@@ -180,8 +180,29 @@ def run(prog, chk):
             ok = False
             if tests and det2:
                 b = tests[0]
-                ok = f.edge_dominates((b["id"], b["succ"][0]), f.node_pos(det2[0])) and all(
-                    f.find_path((b["succ"][0], 0), {f.node_pos(r)}, avoid=q.pos_of(f, det2), after_src=False) is None for r in rets)
+                # the edge taken when the byte at [len] is non-zero, however the test is spelled (`x`, `x != 0`, `!(x == 0)`, `x == '\\0'` ...)
+                kx = [fin.key(f, i_) for i_ in f.desc(b["cond"]) if f.nodes[i_]["k"] == "ArraySubscriptExpr" and
+                      re.fullmatch(r"this->data->str\[this->data->len\]", q.no_casts(f.r(i_)))]
+                vnz = fin.eval_expr(f, b["cond"], {k_: 65 for k_ in kx}) if kx else None
+                vz = fin.eval_expr(f, b["cond"], {k_: 0 for k_ in kx}) if kx else None
+                if vnz is not None and vz is not None and bool(vnz) != bool(vz):
+                    un = b["succ"][0] if vnz else b["succ"][1]
+                    ok = un is not None and f.edge_dominates((b["id"], un), f.node_pos(det2[0])) and all(
+                        f.find_path((un, 0), {f.node_pos(r)}, avoid=q.pos_of(f, det2), after_src=False) is None for r in rets)
+            if not ok and rets and not det2:
+                # the non-const overload may simply delegate to the const one on the same object
+                dl = []
+                for r in rets:
+                    c0 = f.nodes[r]["c"][0] if f.nodes[r]["c"] else None
+                    x = f.strip(c0) if c0 is not None else None
+                    nx = f.nodes[x] if x is not None else {}
+                    if nx.get("k") == "CXXMemberCallExpr" and nx.get("callee") == f.name and nx.get("csig") != f.sig:
+                        o = q.call_object(f, x)
+                        ot = q.no_casts(q.xr(f, o, defs)) if o is not None else "this"
+                        dl.append(ot in ("*this", "this", "(*this)"))
+                    else:
+                        dl.append(False)
+                ok = bool(dl) and all(dl)
             if ok:
                 chk.ok("C06.f", f, "C-string view detaches unterminated text", "%s:%s" % (f.file, f.line), "test of str[len], detach on its true edge before the return", evals=2)
             else:
@@ -193,7 +214,7 @@ def run(prog, chk):
             for k, p in enumerate(f.params):
                 if p["t"] == "const String &":
                     # reads of P.data after a detach that does not preserve the length
-                    lossy = [d for d in det if q.no_casts(f.r(q.call_args(f, d)[0])) != "this->data->len"]
+                    lossy = [d for d in det if q.no_casts(q.xr(f, q.call_args(f, d)[0])) != "this->data->len"]      # the length may sit in a local
                     reads = [i for i, n in enumerate(f.nodes) if n["k"] == "MemberExpr" and n["m"] == "data" and n["c"] and f.r(n["c"][0]) == p["n"]]
                     late = [r for r in reads if any(q.reaches(f, d, r) for d in lossy)]
                     if late:
